@@ -90,6 +90,8 @@ def run(ctx):
     capi_cmp = capi_bad = late_cases = 0
     docs_by_set = {}
     mrdocs = 0
+    perm_counts = {}
+    ties = 0
     placement = {"inside": 0, "equal": 0, "front": 0, "behind": 0}
     names_total = arr_bad = arr_bad_cases = 0
     arr_bad_ids = []
@@ -151,6 +153,10 @@ def run(ctx):
                 ctx.violation("judge", "C18 C API (c_lib.rs ts_tagger_tag) disagrees with the Rust API on the same input: " + kv["capi"][:200],
                               {"case": cid, "spec": specs.get(cid, ""), "result": kv},
                               fingerprint={"queryset": qid, "clause": "capi"})
+        ties += int(kv.get("ties", 0))
+        for pm in kv.get("perms", "-").split(","):
+            if pm != "-" and pm:
+                perm_counts[pm] = perm_counts.get(pm, 0) + 1
         mrdocs += int(kv.get("mrdocs", 0))
         for cls, key in (("inside", "plin"), ("equal", "pleq"), ("front", "plfront"), ("behind", "plbehind")):
             placement[cls] += int(kv.get(key, 0))
@@ -193,6 +199,8 @@ def run(ctx):
         "tags_with_docs_by_query_set": docs_by_set,
         "doc_captures_spanning_several_rows": mrdocs,
         "tags_by_placement_of_name_vs_tagged_node": placement,
+        "name_nodes_with_several_matches_of_their_lowest_pattern(ties)": ties,
+        "name_nodes_shared_by_3_or_4_patterns_by_arrival_order_of_pattern_indices": dict(sorted(perm_counts.items())),
         "explorer_summary": summary,
         "model_variants_matching_all_cases": matching,
         "correspondence": {"compared": corr_cases, "equal": corr_cases - (0 if matching else corr_bad_asis)},
@@ -207,6 +215,15 @@ def run(ctx):
         need = 100
         ctx.oblige("inputs:every-name-placement>=%d-real-tags" % need, all(v >= need for v in placement.values()),
                    "real tags per placement class: %s" % placement)
+    if evals and not ctx.replay:
+        # "lowest pattern index wins" needs name nodes shared by >= 3 patterns in EVERY arrival order of the indices
+        import itertools
+        p3 = {"".join(p): perm_counts.get("".join(p), 0) for p in itertools.permutations("012")}
+        p4 = {"".join(p): perm_counts.get("".join(p), 0) for p in itertools.permutations("0123")}
+        ctx.oblige("inputs:3-patterns-one-name-all-6-arrival-orders>=20", all(v >= 20 for v in p3.values()), str(p3))
+        ctx.oblige("inputs:name-nodes-with-several-matches-of-the-lowest-pattern>=50", ties >= 50, "%d" % ties)
+        ctx.oblige("inputs:4-patterns-one-name-all-24-arrival-orders>=3", all(v >= 3 for v in p4.values()),
+                   str({k: v for k, v in p4.items() if v < 3}) or "all")
     if evals == 0:
         ctx.oblige("run:driver-produced-results", False, out[-500:])
     elif not ctx.replay and len(distinct) * 4 < evals:
